@@ -5,6 +5,8 @@ CONSTANTS
   NChunks = 2
   AutoChoices = {{"P1"}}
   HwChoices = {{"P2"}}
+  NoDefChoices = {{}, {"P1"}}
+  CfgVals = {"v2"}
   Faults = {"crash"}
   Corruptions = {"missing", "notjson", "notdict", "extra", "bad", "drop"}
   Dev = {"BelieveEarly"}
@@ -14,9 +16,11 @@ CONSTANTS
   MaxFaults = 0
   MaxStarts = 2
   MaxCorrupt = 2
+  MaxOther = 0
   FirstCfgs = {0}
   StartCfgs = {0, 1}
-  CfgVals = {"v2"}
+  CfgKinds = {"value", "default"}
+  Vias = {"set"}
 CONSTRAINT Bound
 INVARIANT Emit1
 CHECK_DEADLOCK FALSE
